@@ -444,7 +444,12 @@ def py_tokens(src: str) -> list[tuple[str, str, tuple[int, int], tuple[int, int]
 			continue
 		if name in ('INDENT', 'DEDENT', 'ENDMARKER'):
 			continue
-		out.append((name, t.string, (t.start[0], t.start[1] + 1), (t.end[0], t.end[1] + 1)))
+		end = (t.end[0], t.end[1] + 1)
+		if '\n' in t.string and name == 'STRING':
+			# CPython 3.12 reports a wrong end column for a token that spans lines when non-ASCII characters stand before it
+			# on its first line (byte/character mix-up); the end follows from the start and the token text
+			end = (t.start[0] + t.string.count('\n'), len(t.string) - t.string.rfind('\n'))
+		out.append((name, t.string, (t.start[0], t.start[1] + 1), end))
 	return out
 
 
@@ -712,7 +717,7 @@ def search_spans(ctx: Ctx) -> tuple[SearchResult, SearchResult]:
 	resq.distinct = resq.cases
 	if not exercised and not res.findings and not resq.findings:
 		raise common.InfraError('no module was restored from the on-disk cache: the restored half of the search did not run')
-	res.note = 'restrictions: positions inside a CPython STRING token are exempt from the boundary/content checks (quoted annotations are lexed by the grammar as QUOTE NAME QUOTE); CPython NAME tokens that are Python keywords or anonymous literals of grammar.lark, and `# type: ignore` comments (ignored by the grammar) need not be terminals; f-strings are folded into one STRING; files with CR are excluded; for a text without final line feed (lines+1, 1) counts as end of input'
+	res.note = 'restrictions: positions inside a CPython STRING token are exempt from the boundary/content checks (quoted annotations are lexed by the grammar as QUOTE NAME QUOTE); CPython NAME tokens that are Python keywords or anonymous literals of grammar.lark, and `# type: ignore` comments (ignored by the grammar) need not be terminals; f-strings are folded into one STRING; the end of a multi-line CPython STRING token is recomputed from its start and text (CPython 3.12 miscounts it after non-ASCII text); files with CR are excluded; for a text without final line feed (lines+1, 1) counts as end of input'
 	resq.note = 'an empty column range is shown by one caret at its position (the renderer\'s documented minimum); nodes whose span has no position (0,0,0,0) must not be quoted at all (regression of fix dc3e568); a None position or a raising renderer is a finding (regression of fix 46d0462); CRLF files excluded'
 	return res, resq
 
